@@ -55,7 +55,21 @@ static void check_ops(Fail& f, const Open& F, uint64_t p, uint64_t Bi, uint32_t 
     r = a; CHECK(f, "addin", F.addin(r, b), ((uint64_t)a + b) % p, a, b, 0);
     CHECK(f, "sub", F.sub(r, a, b), ((uint64_t)a + p - b) % p, a, b, 0);
     r = a; CHECK(f, "subin", F.subin(r, b), ((uint64_t)a + p - b) % p, a, b, 0);
+    // destination is the same object as an operand
+    r = a; CHECK(f, "mul.rra", F.mul(r, r, b), ab, a, b, 0);
+    r = b; CHECK(f, "mul.rar", F.mul(r, a, r), ab, a, b, 0);
+    r = a; CHECK(f, "add.rra", F.add(r, r, b), ((uint64_t)a + b) % p, a, b, 0);
+    r = b; CHECK(f, "add.rar", F.add(r, a, r), ((uint64_t)a + b) % p, a, b, 0);
+    r = a; CHECK(f, "sub.rra", F.sub(r, r, b), ((uint64_t)a + p - b) % p, a, b, 0);
+    r = b; CHECK(f, "sub.rar", F.sub(r, a, r), ((uint64_t)a + p - b) % p, a, b, 0);
     if (!ternary) return;
+    r = a; CHECK(f, "axpy.ra", F.axpy(r, r, b, c), (ab + c) % p, a, b, c);
+    r = b; CHECK(f, "axpy.rb", F.axpy(r, a, r, c), (ab + c) % p, a, b, c);
+    r = c; CHECK(f, "axpy.rc", F.axpy(r, a, b, r), (ab + c) % p, a, b, c);
+    r = a; CHECK(f, "axmy.ra", F.axmy(r, r, b, c), (ab + p - c) % p, a, b, c);
+    r = c; CHECK(f, "axmy.rc", F.axmy(r, a, b, r), (ab + p - c) % p, a, b, c);
+    r = a; CHECK(f, "maxpy.ra", F.maxpy(r, r, b, c), (c + p - ab) % p, a, b, c);
+    r = c; CHECK(f, "maxpy.rc", F.maxpy(r, a, b, r), (c + p - ab) % p, a, b, c);
     CHECK(f, "axpy", F.axpy(r, a, b, c), (ab + c) % p, a, b, c);
     r = c; CHECK(f, "axpyin", F.axpyin(r, a, b), (ab + c) % p, c, a, b);
     CHECK(f, "axmy", F.axmy(r, a, b, c), (ab + p - c) % p, a, b, c);
@@ -67,6 +81,7 @@ static void check_unary(Fail& f, const Open& F, uint64_t p, uint64_t Bi, uint32_
     Elt r; uint32_t b = 0, c = 0;
     CHECK(f, "neg", F.neg(r, a), (p - a) % p, a, b, c);
     r = a; CHECK(f, "negin", F.negin(r), (p - a) % p, a, b, c);
+    r = a; CHECK(f, "neg.rr", F.neg(r, r), (p - a) % p, a, b, c);
     uint64_t va = (uint64_t)a * Bi % p;                         // the residue a stands for
     uint32_t u32v; CHECK(f, "convert.u32", F.convert(u32v, a), va, a, b, c);
     CHECK(f, "init.uint32+convert", F.convert(u32v, F.init(r, (uint32_t)a)), a, a, b, c);   // identity on [0,p)
@@ -83,6 +98,12 @@ static void check_unary(Fail& f, const Open& F, uint64_t p, uint64_t Bi, uint32_
         CHECK(f, "div", q, B32 % p, a, a, c);
         q = a; F.divin(q, a);
         CHECK(f, "divin", q, B32 % p, a, a, c);
+        q = a; F.div(q, q, a);                                  // destination is the dividend / the divisor / the inverted element
+        CHECK(f, "div.rra", q, B32 % p, a, a, c);
+        q = a; F.div(q, a, q);
+        CHECK(f, "div.rar", q, B32 % p, a, a, c);
+        r = a; F.inv(r, r);
+        CHECK(f, "inv.rr", (uint64_t)(r < p ? (uint64_t)r * Bi % p * va % p : 99), 1 % p, a, b, c);
     }
 }
 static void check_ctor(Fail& f, const Open& F, uint64_t p) {
@@ -177,6 +198,23 @@ int main(int argc, char** argv) {
         else if (v == "redcs") { out << F.x_redcs(U(0)); haveElt = false; }
         else if (v == "redcin") { out << F.x_redcin(U(0)); haveElt = false; }
         else if (v == "redcsin") { out << F.x_redcsin(U(0)); haveElt = false; }
+        else if (v == "mul.rra") { r = U(0); F.mul(r, r, U(1)); }
+        else if (v == "mul.rar") { r = U(1); F.mul(r, U(0), r); }
+        else if (v == "add.rra") { r = U(0); F.add(r, r, U(1)); }
+        else if (v == "add.rar") { r = U(1); F.add(r, U(0), r); }
+        else if (v == "sub.rra") { r = U(0); F.sub(r, r, U(1)); }
+        else if (v == "sub.rar") { r = U(1); F.sub(r, U(0), r); }
+        else if (v == "div.rra") { r = U(0); F.div(r, r, U(1)); }
+        else if (v == "div.rar") { r = U(1); F.div(r, U(0), r); }
+        else if (v == "neg.rr") { r = U(0); F.neg(r, r); }
+        else if (v == "inv.rr") { r = U(0); F.inv(r, r); }
+        else if (v == "axpy.ra") { r = U(0); F.axpy(r, r, U(1), U(2)); }
+        else if (v == "axpy.rb") { r = U(1); F.axpy(r, U(0), r, U(2)); }
+        else if (v == "axpy.rc") { r = U(2); F.axpy(r, U(0), U(1), r); }
+        else if (v == "axmy.ra") { r = U(0); F.axmy(r, r, U(1), U(2)); }
+        else if (v == "axmy.rc") { r = U(2); F.axmy(r, U(0), U(1), r); }
+        else if (v == "maxpy.ra") { r = U(0); F.maxpy(r, r, U(1), U(2)); }
+        else if (v == "maxpy.rc") { r = U(2); F.maxpy(r, U(0), U(1), r); }
         else if (v == "mul") F.mul(r, U(0), U(1));
         else if (v == "mulin") { r = U(0); F.mulin(r, U(1)); }
         else if (v == "add") F.add(r, U(0), U(1));
